@@ -552,6 +552,10 @@ func checkC04(c *Check) {
 		c.Hold("R4", "start:sender-reject", r.FI.Decl.Pos(), !f && len(store) == 1, "a sender block with a configured reject reply is accepted: "+r.F.Describe(path))
 	}
 
+	// ---- R7: the block that answers is the block selected for THIS transaction's sender
+	c.Rule("R7", "SMTP endpoint, deferred sender rejection: the session state Rcpt consults before it starts the delivery (the remembered reply of a failed start, the sender, the options) is assigned by every accepted MAIL – a recipient is never refused with the reply of a block selected for an earlier transaction's sender", 1)
+	sessionStaleState(c, "R7")
+
 	// ---- R6: what the rule keys and the envelope addresses are compared by. "Insensitive to letter case and to the
 	// A-label / U-label spelling" is a statement about the two lookup-key functions: every value they return on success
 	// has been IDNA-decoded, NFC-normalised and lower-cased. That is C17's rule R4 (and R3, purity), evaluated here for
